@@ -41,4 +41,4 @@ ENTRY = {
 # sets whose map entries travel in non-canonical order; the value must be filed under the hash the honest leader announced
 from vlib.props_C05 import ENTRY as _E05
 ENTRY["streams"] = ENTRY["streams"] + [dict(_E05["streams"][0], seeds_quick=1)]
-ENTRY["monitor_sigs"] = list(ENTRY.get("monitor_sigs") or ["codec:"]) + ["qbftwire:honest_message_rejected", "qbftwire:value_hash_mismatch_accepted"]
+ENTRY["monitor_sigs"] = list(ENTRY.get("monitor_sigs") or ["codec:"]) + ["qbftwire:honest_message_rejected", "qbftwire:honest_message_not_constructible", "qbftwire:value_hash_mismatch_accepted"]
